@@ -288,6 +288,14 @@ func enumerateCrashSites(p *Prog, fns map[*ssa.Function]*CGEdge) []crashSite {
 						add(crashSite{Class: "K7", Fn: fn, In: in, Val: cc.Args[0], What: short(n) + " on " + describeVal(cc.Args[0])})
 					}
 				}
+				// K12: call of a function value taken out of a package-level table (array, slice or map of funcs)
+				if !cc.IsInvoke() && cc.StaticCallee() == nil {
+					if _, isB := cc.Value.(*ssa.Builtin); !isB {
+						if g, how := funcTableElement(cc.Value); g != nil {
+							add(crashSite{Class: "K12", Fn: fn, In: in, Val: cc.Value, What: "call of an element of " + g.Name() + " (" + how + ")"})
+						}
+					}
+				}
 				if b, ok := cc.Value.(*ssa.Builtin); ok && b.Name() == "close" {
 					if f, ok := chanField(cc.Args[0]); ok {
 						add(crashSite{Class: "K8", Fn: fn, In: in, Val: cc.Args[0], What: "close(" + f.Name() + ")"})
@@ -1227,4 +1235,74 @@ func upperBoundByHelper(fn *ssa.Function, at ssa.Instruction, v ssa.Value, depth
 		}
 	})
 	return best, found
+}
+
+// funcTableElement: v is an element of a package-level array/slice/map (m[k], a[i]) — returns the global.
+func funcTableElement(v ssa.Value) (*ssa.Global, string) {
+	if ex, ok := v.(*ssa.Extract); ok && ex.Index == 0 {
+		v = ex.Tuple
+	}
+	switch x := v.(type) {
+	case *ssa.UnOp:
+		if ia, ok := x.X.(*ssa.IndexAddr); ok && x.Op == token.MUL {
+			if g, ok := ia.X.(*ssa.Global); ok {
+				return g, "array"
+			}
+			if u, ok := ia.X.(*ssa.UnOp); ok {
+				if g, ok := u.X.(*ssa.Global); ok {
+					return g, "slice"
+				}
+			}
+		}
+	case *ssa.Lookup:
+		if u, ok := x.X.(*ssa.UnOp); ok {
+			if g, ok := u.X.(*ssa.Global); ok {
+				return g, "map"
+			}
+		}
+	}
+	return nil, ""
+}
+
+// funcTableComplete: every slot of the package-level array g receives a non-nil function in the
+// package initialiser (and nowhere else).
+func funcTableComplete(p *Prog, g *ssa.Global) (bool, string) {
+	arr, ok := g.Type().(*types.Pointer).Elem().Underlying().(*types.Array)
+	if !ok {
+		return false, "not an array: an absent key or index yields a nil function"
+	}
+	filled := map[int64]bool{}
+	for _, fn := range p.Funcs {
+		allInstrs(fn, func(in ssa.Instruction) {
+			st, ok := in.(*ssa.Store)
+			if !ok {
+				return
+			}
+			ia, ok := st.Addr.(*ssa.IndexAddr)
+			if !ok || ia.X != ssa.Value(g) {
+				return
+			}
+			k, ok := constInt(ia.Index)
+			if !ok {
+				return
+			}
+			if c, isC := st.Val.(*ssa.Const); isC && c.IsNil() {
+				return
+			}
+			filled[k] = true
+		})
+	}
+	var missing []string
+	for i := int64(0); i < arr.Len(); i++ {
+		if !filled[i] {
+			missing = append(missing, fmt.Sprintf("%d", i))
+		}
+	}
+	if len(missing) > 0 {
+		if len(missing) > 6 {
+			missing = append(missing[:6], "…")
+		}
+		return false, "slots " + strings.Join(missing, ", ") + " of the table are never filled"
+	}
+	return true, ""
 }
